@@ -165,7 +165,7 @@ pub fn replay(path: &str) -> i32 {
                 let node = e1_posgraph::walk(&ex, root, &path)?;
                 let mut out = Vec::new();
                 let mut local = std::collections::BTreeMap::new();
-                ex.check_node(&node, false, &mut out, &mut local);
+                ex.check_node(&node, node.depth, &mut out, &mut local);
                 println!("  round {}: position {}", round, node.pos.fen());
             }
             "e2-search" | "c10-history" => {
@@ -191,10 +191,12 @@ pub fn replay(path: &str) -> i32 {
                 let line = String::from_utf8_lossy(&out.stdout).lines().rev().find(|l| l.starts_with('{')).unwrap_or("").to_string();
                 println!("  round {}: {}", round, line);
                 let j = J::parse(&line).map_err(|e| e)?;
-                if let Some(v @ J::Obj(_)) = j.get("violation") {
-                    return Ok(vec![(v.get("signature").and_then(|x| x.as_str()).unwrap_or("").to_string(), v.get("summary").and_then(|x| x.as_str()).unwrap_or("").to_string())]);
-                }
-                return Ok(Vec::new());
+                let viols: Vec<J> = match j.get("violation") {
+                    Some(J::Arr(a)) => a.clone(),
+                    Some(v @ J::Obj(_)) => vec![v.clone()],
+                    _ => Vec::new(),
+                };
+                return Ok(viols.iter().map(|v| (v.get("signature").and_then(|x| x.as_str()).unwrap_or("").to_string(), v.get("summary").and_then(|x| x.as_str()).unwrap_or("").to_string())).collect());
             }
             "e4-session" => {
                 let lines: Vec<String> = case.get("lines").and_then(|x| x.as_arr()).map(|a| a.iter().filter_map(|x| x.as_str().map(|s| s.to_string())).collect()).unwrap_or_default();
